@@ -342,10 +342,31 @@ class PeriodicReal:
             return body()
         cb = coro_cb if kind in ("coro", "cororaise") else sync_cb
         p_s = cfg["p"] * self.tick
+        # PeriodicJitter.tla: jitter = 1/2 with scripted draws.  A draw f (6..9) is the random number
+        # (f - 6)/4, so the period used is p*f/8 - dyadic, hence exact in float arithmetic.
+        self.jit = bool(cfg.get("jit"))
+        self.rq = []
+        self.rnd = 0
+        self._saved_random = None
+        kw = {}
+        if self.jit:
+            import tornado.ioloop as _il
+            real_random = _il.random
+
+            class _Scripted:
+                def random(_s):
+                    me.rnd += 1
+                    return me.rq.pop(0) if me.rq else 0.5
+
+                def __getattr__(_s, name):
+                    return getattr(real_random, name)
+            self._saved_random = (_il, real_random)
+            _il.random = _Scripted()
+            kw["jitter"] = 0.5
         if how == "timedelta":
-            self.pc = PeriodicCallback(cb, datetime.timedelta(seconds=p_s))
+            self.pc = PeriodicCallback(cb, datetime.timedelta(seconds=p_s), **kw)
         else:
-            self.pc = PeriodicCallback(cb, p_s * 1000.0)
+            self.pc = PeriodicCallback(cb, p_s * 1000.0, **kw)
 
     def _to_ticks(self, t):
         x = (t - self.w0) / self.tick
@@ -372,11 +393,16 @@ class PeriodicReal:
             extra.append("asyncio:" + str(c.get("message"))[:60])
         p = {"running": 1 if self.pc.is_running() else 0, "armed": self._armed(), "inflight": self.inflight,
              "calls": self.calls, "sched": list(self.sched), "errs": errs}
+        if self.jit:
+            p["rnd"] = self.rnd
         if extra:
             p["unexpected_log"] = extra
         return p
 
     def step(self, act, args):
+        if self.jit and act != "stop":
+            self.rq[:] = [(args[-1] - 6) / 4.0]
+            args = args[:-1]
         try:
             if act == "start":
                 self.pc.start()
@@ -400,6 +426,10 @@ class PeriodicReal:
         return self.proj()
 
     def close(self):
+        if self._saved_random is not None:
+            mod, real_random = self._saved_random
+            mod.random = real_random
+            self._saved_random = None
         self.tap.close()
         for g in self.gates:
             if not g.done():
